@@ -24,6 +24,12 @@ impl Inflate {
             handle: tokio::task::spawn_blocking(move || inflate(buf)),
         }
     }
+
+    pub(super) fn from_error(e: io::Error) -> Self {
+        Self {
+            handle: tokio::task::spawn_blocking(move || Err(e)),
+        }
+    }
 }
 
 impl Future for Inflate {
